@@ -453,6 +453,43 @@ def check_branch_rule(ctx):
     ctx.add('branch_rule', ev, nt)
 
 
+def check_model_branch_rule(ctx):
+    """A model fitted to one branch of hysteresis data sees the rows of that branch only, whatever the route by which the (unmarked) data arrive."""
+    import pygaps
+    ev = nt = 0
+    kw = dict(material='m', adsorbate='N2', temperature=77.0, temperature_unit='K', **dict(zip(UKEYS, BASE)))
+    pa = numpy.linspace(0.05, 2.0, 12)
+    pd_ = pa[::-1][1:]
+    gens = {'ads': (2.0, 4.0), 'des': (5.0, 4.4)}
+    na = gens['ads'][1] * gens['ads'][0] * pa / (1 + gens['ads'][0] * pa)
+    nd = gens['des'][1] * gens['des'][0] * pd_ / (1 + gens['des'][0] * pd_)
+    pr, ld = numpy.concatenate([pa, pd_]), numpy.concatenate([na, nd])
+    marks = [False] * len(pa) + [True] * len(pd_)
+    for labels in (None, list(range(5, 5 + len(pr))), [f'r{i}' for i in range(len(pr))]):
+        frame = pandas.DataFrame({'pressure': pr, 'loading': ld}, index=labels)
+        marked = frame.assign(branch=marks)
+        for br in ('ads', 'des'):
+            routes = {
+                'unmarked frame': lambda: pygaps.ModelIsotherm(isotherm_data=frame.copy(), pressure_key='pressure', loading_key='loading', model='Langmuir', branch=br, **kw),
+                # (plain pressure / loading arrays carry no branch information: they are fitted as given, by design)
+                'frame with marks': lambda: pygaps.ModelIsotherm(isotherm_data=marked.copy(), pressure_key='pressure', loading_key='loading', model='Langmuir', branch=br, **kw),
+                'from a point isotherm': lambda: pygaps.ModelIsotherm.from_pointisotherm(
+                    pygaps.PointIsotherm(isotherm_data=frame.copy(), pressure_key='pressure', loading_key='loading', **kw), model='Langmuir', branch=br),
+                'guess over two models': lambda: pygaps.ModelIsotherm.guess(isotherm_data=frame.copy(), pressure_key='pressure', loading_key='loading', models=['Langmuir', 'Henry'], branch=br, **kw),
+            }
+            K, nm = gens[br]
+            for rname, mk in routes.items():
+                o = core.call(mk)
+                ev += 1
+                nt += 1
+                good = o.ok and o.value.model.name == 'Langmuir' and abs(o.value.model.params['K'] - K) < 1e-4 * K and abs(o.value.model.params['n_m'] - nm) < 1e-4 * nm
+                if not good:
+                    ctx.violate(_v('model-branch-rule', f'Langmuir fitted to branch {br!r} of hysteresis data (adsorption generated with K, n_m = {gens["ads"]}, desorption with {gens["des"]}) '
+                                   f'given as {rname} (row labels {"default" if labels is None else labels[:2]}): {o.value.model.params if o.ok else o.brief()[:160]}',
+                                   {'route': rname, 'branch': br}, {'K': K, 'n_m': nm}, o.value.model.params if o.ok else o.brief(), {'route': rname}))
+    ctx.add('model_branch_rule', ev, nt)
+
+
 # --- limits: zero is a number, not "no limit" --------------------------------------------------------
 
 def check_limits_zero(ctx):
@@ -654,6 +691,7 @@ def run(ctx):
         ctx.violate(r['viol'])
         ctx.track('model_vs_reference', r['worst'], 1e-8)
     check_branch_rule(ctx)
+    check_model_branch_rule(ctx)
     check_interpolation(ctx)
     check_limits_zero(ctx)
     ctx.cov['domain_sizes'] = {'loading_x_material_reps': len(lreps), 'pressure_reps': len(preps), 'model_reps': len(mq)}
